@@ -390,12 +390,86 @@ def check_trees(count, ctx):
                 w, observed=xl.show(v2), accepted=[xl.show(v1)]))
 
 
+# -- models finished with circular=True ----------------------------------------------------
+
+def _has(t, kinds):
+    return isinstance(t, list) and bool(t) and (
+        t[0] in kinds or any(_has(x, kinds) for x in t[1:]))
+
+
+def make_circular(seed, i):
+    """Cyclic workbook of C10's generator whose cycles run through single
+    cells only (no ranges, no names)."""
+    import random
+    from . import c10
+    rng = random.Random('fvmon/C09/circ/%s/%s' % (seed, i))
+    for _ in range(60):
+        desc = c10.gen_workbook(rng)
+        if not desc['names'] and not any(_has(t, ('sum', 'name'))
+                                         for t in desc['cells'].values()):
+            return {'kind': 'circular', 'id': '%s/%s' % (seed, i), 'desc': desc}
+    return None
+
+
+def check_circular(case, ctx):
+    import formulas
+    from . import c10
+    d = c10.to_dict(case['desc'])
+
+    def load(dd):
+        m = formulas.ExcelModel().from_dict(dict(dd), assemble=False)
+        return m.finish(complete=False, circular=True)
+    try:
+        m1 = load(d)
+        sol1 = _sol_values(m1.calculate())
+        d1 = m1.to_dict()
+        js = json.dumps(d1)
+    except Exception as ex:
+        ctx.count('circular.export-raised')
+        ctx.see('circular-raised', '%s: %s' % (type(ex).__name__, str(ex)[:80]))
+        return
+    ctx.case(('circular', case['id']))
+    w = {'case': case}
+    try:
+        m2 = load(json.loads(js))
+        sol2 = _sol_values(m2.calculate())
+        d2 = m2.to_dict()
+    except Exception as ex:
+        ctx.violation('circular:import-raised:%s' % type(ex).__name__, dict(
+            w, exported={k: _short(v) for k, v in sorted(d1.items())[:12]},
+            observed='%s: %s' % (type(ex).__name__, str(ex)[:200]), accepted=['a model']))
+        return
+    ctx.count('monitor.circular-roundtrip')
+    for k, v in d.items():
+        # a formula stays a formula (the #CIRC! placeholder is no cell content)
+        if isinstance(v, str) and v.startswith('=') and not str(d1.get(k, '')).startswith('='):
+            ctx.violation('circular:formula-exported-as-value', dict(
+                w, node=k, formula=v, observed=_short(d1.get(k)), accepted=['a formula text']))
+            return
+    for k, v in sol1.items():
+        v2 = sol2.get(k, ('missing',))
+        if not xl.same(v, v2, rel=1e-15):
+            ctx.violation('circular:value-changed:%s->%s' % (
+                wbrun._cls(v if v[0] != 'arr' else v[1][0]),
+                wbrun._cls(v2 if v2[0] != 'arr' else v2[1][0])), dict(
+                w, node=k, exported=_short(d1.get(k)), observed=xl.show(v2),
+                accepted=[xl.show(v)]))
+            return
+    if d2 != d1:
+        keys = sorted(k for k in set(d1) | set(d2) if d1.get(k) != d2.get(k))
+        ctx.violation('circular:export-drifts', dict(
+            w, node=keys[0], observed=_short(d2.get(keys[0], '<absent>')),
+            accepted=[_short(d1.get(keys[0], '<absent>'))], n_keys=len(keys)))
+
+
 def plan(tier, seed):
     n = 120 if tier == 'quick' else 1500
     per = 10 if tier == 'quick' else 50
     specs = [{'kind': 'descs', 'lo': lo, 'hi': min(n, lo + per)}
              for lo in range(0, n, per)]
     specs.append({'kind': 'hostile', 'count': 12 if tier == 'quick' else 150})
+    nc = 200 if tier == 'quick' else 3000
+    specs += [{'kind': 'circular', 'lo': lo, 'hi': lo + 100} for lo in range(0, nc, 100)]
     for i in range(2 if tier == 'quick' else 12):
         specs.append({'kind': 'trees', 'count': 2500 if tier == 'quick' else 9000})
     return specs
@@ -413,12 +487,26 @@ def check_case(case, ctx):
         check_hostile(case, ctx)
     elif k == 'hostile-dict':
         check_hostile_dict(case, ctx)
+    elif k == 'circular':
+        check_circular(case, ctx)
     elif k == 'tree':
         check_trees(1, ctx)
 
 
 def run(spec, ctx):
     k = spec['kind']
+    if k == 'circular':
+        case = None
+        for i in range(spec['lo'], spec['hi']):
+            c = make_circular(spec['seed'], i)
+            if c is None:
+                continue
+            case = c
+            ctx.open_case({'kind': 'circular', 'id': case['id']})
+            check_circular(case, ctx)
+        if case:
+            ctx.sample({'circular_cells': sorted(case['desc']['cells'])})
+        return
     if k == 'descs':
         for i in range(spec['lo'], spec['hi']):
             desc = make_desc(spec['seed'], i)
@@ -444,7 +532,8 @@ def finalize(agg, tier):
     c, inc = agg['counters'], []
     for k, floor in (('monitor.roundtrip', 100), ('monitor.roundtrip-values', 3000),
                      ('monitor.fixed-point', 100), ('monitor.reparse', 1000),
-                     ('monitor.tree-reparse', 3000)):
+                     ('monitor.tree-reparse', 3000), ('monitor.circular-roundtrip', 120),
+                     ('monitor.roundtrip-finished', 100)):
         if c.get(k, 0) < floor:
             inc.append('monitor %s saw %d events (< %d)' % (k, c.get(k, 0), floor))
     return {'inconclusive': inc, 'coverage': {
